@@ -22,7 +22,8 @@ Conv == [d \in Dialects |->
       array |-> IF d = "postgresql" THEN "ARRAY[" ELSE "[",
       ivl   |-> IF d \in {"mysql", "oracle"} THEN "out" ELSE "in", \* INTERVAL '1' DAY  vs  INTERVAL '1 DAY'
       wrap  |-> d # "mysql",                                      \* set operands in brackets
-      pag   |-> IF d \in {"mssql", "oracle"} THEN "fetch" ELSE "limit" ]]
+      pag   |-> IF d \in {"mssql", "oracle"} THEN "fetch" ELSE "limit",
+      gba   |-> d \notin {"mssql", "oracle"} ]]                   \* GROUP BY may name a select alias
 
 Units == {"YEAR", "MONTH", "DAY", "HOUR", "MINUTE", "SECOND", "MICROSECOND", "WEEK", "QUARTER"}
 
@@ -33,7 +34,7 @@ PhNumbered(toks, i, k) ==
     ELSE PhNumbered(toks, i + 1, k)
 
 \* the set of conventions a token stream breaks under dialect d
-Broken(toks, d, boolmark) ==
+Broken(toks, d, boolmark, aliases) ==
     LET c == Conv[d] IN
        {"identifier-quote" : i \in {x \in DOMAIN toks : toks[x].t = "id" /\ toks[x].q # c.idq}}
   \cup {"string-as-identifier" : i \in {x \in DOMAIN toks : d = "mysql" /\ toks[x].t = "str" /\ toks[x].q = "\""}}
@@ -44,6 +45,8 @@ Broken(toks, d, boolmark) ==
                             ((c.array = "ARRAY[") # (x > 1 /\ toks[x - 1].t = "word" /\ toks[x - 1].v = "ARRAY"))}}
   \cup {"interval" : i \in {x \in DOMAIN toks : toks[x].t = "word" /\ toks[x].v = "INTERVAL" /\ x + 1 <= Len(toks) /\ toks[x + 1].t = "str" /\
                             ((c.ivl = "out") # (x + 2 <= Len(toks) /\ toks[x + 2].t = "word" /\ toks[x + 2].v \in Units))}}
+  \cup {"groupby-alias" : i \in {x \in DOMAIN toks : ~c.gba /\ toks[x].t = "word" /\ toks[x].v = "GROUP" /\ x + 2 <= Len(toks)
+                            /\ toks[x + 1].v = "BY" /\ toks[x + 2].t = "id" /\ toks[x + 2].v \in aliases}}
   \cup {"pagination" : i \in {x \in DOMAIN toks : toks[x].t = "word" /\
                             ((c.pag = "fetch" /\ toks[x].v = "LIMIT") \/ (c.pag = "limit" /\ toks[x].v = "FETCH"))}}
 
